@@ -305,8 +305,9 @@ func (d *db) ProcessWrite(b *proto.WriteRequest, commitOffset int64, timestamp u
 
 	// Publish the new sequential keys again now that they are readable from the db:
 	// a waiter that registered while the batch was in flight did not find them there
-	for i, prefixKey := range sequencePrefixes {
-		if i < len(res.Puts) && res.Puts[i].Status == proto.Status_OK {
+	for i := range res.Puts {
+		// In the order of the request: the last key published for a prefix must be the highest
+		if prefixKey, ok := sequencePrefixes[i]; ok && res.Puts[i].Status == proto.Status_OK {
 			d.sequenceWaiterTracker.SequenceUpdated(prefixKey, res.Puts[i].GetKey())
 		}
 	}
